@@ -1578,7 +1578,15 @@ impl<const M0: u64, const M1: u64, const M2: u64, const M3: u64> ModInt256<M0, M
         let mut z = Self([f[0], f[1], 0, 0]);
         z.set_cond(&(z - Self([0, 0, 1, 0])), sgnw(f[1]) as u32);
         z *= &self;
-        let sz = sgnw(z.0[3] | z.0[3].wrapping_neg());
+        // If (q-1)/2 - z yields a borrow, then z >= (q+1)/2 and the
+        // (signed) result is z - q. Testing only the top limb of z is
+        // not enough when the modulus is close to 2^192: a negative
+        // result q - |v| may then be lower than 2^192.
+        let (_, cc) = subborrow_u64(Self::QM1D2[0], z.0[0], 0);
+        let (_, cc) = subborrow_u64(Self::QM1D2[1], z.0[1], cc);
+        let (_, cc) = subborrow_u64(Self::QM1D2[2], z.0[2], cc);
+        let (_, cc) = subborrow_u64(Self::QM1D2[3], z.0[3], cc);
+        let (sz, _) = subborrow_u64(0, 0, cc);
         let (d0, cc) = subborrow_u64(z.0[0], sz & Self::MODULUS[0], 0);
         let (d1, cc) = subborrow_u64(z.0[1], sz & Self::MODULUS[1], cc);
         let (d2, _)  = subborrow_u64(z.0[2], sz & Self::MODULUS[2], cc);
